@@ -137,8 +137,15 @@ func (k Keeper) AllocateTokensToStakers(ctx sdk.Context, operatorAddress sdk.Acc
 				if curStakerPower, err := k.StakingKeeper.CalculateUSDValueForStaker(ctx, staker, avsAddress, operatorAddress.Bytes()); err != nil {
 					logger.Error("curStakerPower error", "error", err)
 				} else {
-					stakersPowerMap[staker] = curStakerPower
-					globalStakerAddressList = append(globalStakerAddressList, staker)
+					// a staker is met once per asset and per AVS: keep one entry whose weight is everything
+					// it added to the total. overwriting the weight with the last value while listing the
+					// staker again made the fractions add up to more than one (negative remainder, panic).
+					if prevPower, seen := stakersPowerMap[staker]; seen {
+						stakersPowerMap[staker] = prevPower.Add(curStakerPower)
+					} else {
+						stakersPowerMap[staker] = curStakerPower
+						globalStakerAddressList = append(globalStakerAddressList, staker)
+					}
 					curTotalStakersPowers = curTotalStakersPowers.Add(curStakerPower)
 				}
 			}
